@@ -24,6 +24,7 @@ def batch_package():
     Outer = Rec("BtOuter", [("id", P("int32")), ("maybe", Opt(N("BtInner"))), ("v", V(Opt(P("int32")))), ("in", N("BtInner")),
                             ("u", U(((None, P("int32")), (None, P("string")), (None, N("BtInner"))), True))])
     Triv = Rec("BtTrivRec", [("a", P("float32")), ("b", P("float32"))])
+    Gen = Rec("BtGen", [("id", P("int32")), ("value", TP("T")), ("more", V(TP("T")))], ("T",))
     items = [
         ("mapSI", M(P("string"), P("int32"))),
         ("mapIS", M(P("int64"), V(P("string")))),
@@ -37,11 +38,15 @@ def batch_package():
         ("triv", N("BtTrivRec")),
         ("str", P("string")),
         ("mapOfMap", M(P("string"), M(P("string"), P("int32")))),
+        # a bare type parameter bound to a nullable type: presence is only known after instantiation
+        ("genOpt", N("BtGen", (Opt(P("int32")),))),
+        ("genUnion", N("BtGen", (U(((None, P("int32")), (None, P("string"))), True),))),
+        ("genMap", N("BtGen", (M(P("string"), P("int32")),))),
     ]
     protos = [Proto("Bt" + n[:1].upper() + n[1:], [("pre", P("uint8")), ("s", S(t)), ("post", P("string"))]) for n, t in items]
     # two streams in one protocol: block bookkeeping must reset between steps
     protos.append(Proto("BtTwo", [("a", S(M(P("string"), P("int32")))), ("b", S(N("BtOuter"))), ("post", P("int32"))]))
-    return Pkg("Batch", [Inner, Outer, Triv] + protos)
+    return Pkg("Batch", [Inner, Outer, Triv, Gen] + protos)
 
 
 def shaped_items(vg: values.ValueGen, t, n: int, r):
